@@ -325,6 +325,7 @@ def make_case(rng, cid, what):
         for _ in range(rng.randint(2, 6)):
             ws = G.raw_argv(rng, args)
             add("pa tokens " + words_hex(ws), None, "raw-tokens")
+            add("pa rest " + words_hex(ws), None, "raw-rest")      # argsAsString( true/false) at every element
             opts = ""
             r = rng.random()
             if r < 0.2 and not longname:
@@ -704,6 +705,9 @@ BATCHES = {
 
 EXH_VOCAB = ["-a", "-b", "-ab", "-ba", "-a5", "-ba5", "--alpha", "--al", "--alpha=5", "--al=", "--beta", "-m", "--multi=1,2",
              "5", "x", "7,8", "--", "-", "!", "(", "--nokey", "-v", "-vv", "--verbose"]
+# C01-C03 only: forms of the declarative grammar SpellsPlus beyond Spells (C02_parse_faithful) — a dash inside a group
+# of short keys (= separator / long name), a flag with '=value', an optional value behind `-v-`
+EXH_VOCAB_PLUS = ["-b-", "-b-a", "-v--al", "--beta=x"]
 EXH_CFGS = [
     ["pa cfg begin abbr=1", "pa arg key=a,alpha kind=int", "pa arg key=b,beta kind=flag", "pa arg key=m,multi kind=vec multi",
      "pa arg key=v,verbose kind=level", "pa cfg end"],
@@ -722,10 +726,11 @@ def exhaustive_argv(prop, max_len):
     for ci, cfg in enumerate(EXH_CFGS):
         lines = list(cfg)
         for n in range(0, max_len + 1):
-            for ws in itertools.product(EXH_VOCAB, repeat=n):
+            for ws in itertools.product(EXH_VOCAB + (EXH_VOCAB_PLUS if prop in ("C01", "C02", "C03") else []), repeat=n):
                 w = words_hex(ws)
                 if prop == "C04":
                     lines.append("pa tokens " + w)
+                    lines.append("pa rest " + w)
                 if prop == "C08":
                     if ci == 2:
                         continue        # the handler constraint spans two members there
@@ -758,7 +763,8 @@ def generate(prop, tier, seed, scale=1):
             [pattern_case(rng, "pat-%d" % k, which=[k]) for k in range(len(G.PATTERNS))]
     if prop in ("C01", "C02", "C03", "C04", "C08"):
         n = 2 if tier == "quick" else 3
-        yield "exhaustive argv of <= %d words over a %d-word vocabulary x 3 configurations" % (n, len(EXH_VOCAB)), \
+        yield "exhaustive argv of <= %d words over a %d-word vocabulary x 3 configurations" % (
+            n, len(EXH_VOCAB) + (len(EXH_VOCAB_PLUS) if prop in ("C01", "C02", "C03") else 0)), \
             exhaustive_argv(prop, n)
 
 
@@ -814,6 +820,8 @@ def diff_is_failure(prop, p):
     """a model/implementation difference on an evaluation whose outcome class (accepted with which destinations /
     rejected) differs is a failure of the functional properties; differing exception *classes* alone are tie-only"""
     a, b = (p.impl or ""), (p.model or "")
+    if p.line.startswith("pa rest"):
+        return True          # argsAsString(): the strings (and which call throws) are determined by argv alone
     if a.startswith("throw ") and b.startswith("throw "):
         return False
     if PROPERTIES[prop]["kind"] == "functional":
@@ -866,3 +874,68 @@ def finding_matches(finding, p):
             if x and y and i != j and y.startswith(x) and mem[i] != mem[j]:
                 return True
     return False
+
+
+# ---- C08 audit follow-up (appended): list values through a group -------------------------------------------------
+# `C08_group_equiv_partial` now covers command lines with commas everywhere except inside a typed long key
+# (`ArgvPlain`): value words `1,2,3` / `1,-2`, values attached to a long key `--list=1,-2,3`, values attached to a
+# short key `-m4,-5`, free values that are lists themselves.  This batch sends exactly these spellings through a
+# single handler and through groups (several partitions, both registration orders) with the expectation computed here.
+
+def group_listvalue_case(rng, cid):
+    sm, so = rng.sample(G.SHORTS, 2)
+    lm, lo = rng.sample(G.LONGS, 2)
+    lines = ["pa cfg begin abbr=0",
+             "pa arg key=%s,%s kind=vec multi" % (sm, lm),
+             "pa arg key=%s,%s kind=str" % (so, lo),
+             "pa arg key=Q kind=flag", "pa cfg end"]
+
+    def ints(k):
+        return [rng.choice([rng.randint(0, 40), -rng.randint(1, 40)]) for _ in range(k)]
+    out = []
+    for _ in range(rng.randint(2, 4)):
+        vals, words = [], []
+        for _u in range(rng.randint(1, 3)):
+            v = ints(rng.randint(1, 3))
+            form = rng.randrange(3)
+            if form == 0:
+                if v[0] < 0:
+                    v[0] = -v[0]          # a separate value word must not start with a dash
+                words += [rng.choice(["-" + sm, "--" + lm]), ",".join(map(str, v))]
+            elif form == 1:
+                words += ["--%s=%s" % (lm, ",".join(map(str, v)))]
+            else:
+                if v[0] < 0:
+                    v[0] = -v[0]          # `-m-1,2` would read `-1,2` as a long key
+                words += ["-%s%s" % (sm, ",".join(map(str, v)))]
+            vals += v
+            # free values behind it, lists themselves
+            for _f in range(rng.randint(0, 2)):
+                fv = ints(rng.randint(1, 3))
+                fv[0] = abs(fv[0])
+                words.append(",".join(map(str, fv)))
+                vals += fv
+        sval = rng.choice(["a,b", "x,", ",", "1,2,3", "v1"])
+        swords = rng.choice([["--%s=%s" % (lo, sval)], ["-" + so, sval], ["--" + lo, sval], ["-%s%s" % (so, sval)]])
+        q = rng.randint(0, 1)
+        ws = (["-Q"] if q else []) + (swords + words if rng.random() < 0.5 else words + swords)
+        exp = "ok 0:v=[%s] 1:s=%s 2:f=%d" % (",".join(map(str, vals)), G.hx(sval), q)
+        out.append("pa eval x-lbl=glist-single x-exp=%s -- %s" % (G.hx(exp), words_hex(ws)))
+        for mem in ("010", "011", "100", "012", "021"):
+            ms = sorted(set(mem))
+            for od in ("".join(ms), "".join(reversed(ms))):
+                if rng.random() < 0.5:
+                    out.append("pa group x-lbl=glist-group x-exp=%s members=%s order=%s -- %s" % (G.hx(exp), mem, od, words_hex(ws)))
+    return Case(cid, lines + out)
+
+
+_generate_before_glist = generate
+
+
+def generate(prop, tier, seed, scale=1):
+    for label, cases in _generate_before_glist(prop, tier, seed, scale):
+        yield label, cases
+    if prop == "C08":
+        rng = random.Random("C08-glist-%s" % seed)
+        n = (40 if tier == "quick" else 3000) * scale
+        yield "generated", [group_listvalue_case(rng, "glist-%d" % k) for k in range(n)]
